@@ -64,7 +64,9 @@ func MossGoroutines() []GInfo {
 		if g.State == "running" && strings.Contains(g.Text, "eng.Goroutines") {
 			continue
 		}
-		if strings.Contains(g.Text, "github.com/couchbase/moss.") {
+		// goroutines of the harness' own workload (package checks) count as
+		// well: a reader that is busy comparing results is progress
+		if strings.Contains(g.Text, "github.com/couchbase/moss.") || strings.Contains(g.Text, "mossverif/checks.") {
 			out = append(out, g)
 		}
 	}
@@ -98,7 +100,7 @@ func Quiescent(gap time.Duration) (bool, []GInfo) {
 	filter := func(gs []GInfo) []GInfo {
 		var o []GInfo
 		for _, g := range gs {
-			if strings.Contains(g.Text, "idleMergerWaker") {
+			if strings.Contains(g.Text, "idleMergerWaker") || strings.Contains(g.Text, "statsSampler") {
 				continue
 			}
 			o = append(o, g)
